@@ -845,6 +845,180 @@ func startsEmptyBefore(f *chk.Fn, g *chk.Graph, l types.Object, rs *ast.RangeStm
 	return true
 }
 
+// argOrigin is where the value of a parameter comes from: the argument expression at a call site, in the caller.
+type argOrigin struct {
+	Fn   *chk.Fn
+	Call *ast.CallExpr
+	Arg  ast.Expr
+}
+
+// paramOrigins: when e denotes a parameter of f that f never assigns, the arguments passed for it at every static call
+// site of f in the module (nil when e is not such a parameter or f has no caller) - what a helper that takes a value
+// of its former receiver as a parameter is handed.
+func paramOrigins(p *chk.Prog, f *chk.Fn, e ast.Expr) []argOrigin {
+	if f.Type == nil || f.Type.Params == nil || f.Obj == nil {
+		return nil
+	}
+	idx, k := -1, 0
+	var pobj types.Object
+	for _, fld := range f.Type.Params.List {
+		for _, nm := range fld.Names {
+			if o := f.Info().Defs[nm]; o != nil && f.Denotes(e, o) {
+				idx, pobj = k, o
+			}
+			k++
+		}
+		if len(fld.Names) == 0 {
+			k++
+		}
+	}
+	if idx < 0 || len(assignsTo(f, pobj)) > 0 {
+		return nil
+	}
+	var out []argOrigin
+	for _, cs := range p.CallersOf(f) {
+		if idx >= len(cs.Call.Args) || cs.Call.Ellipsis.IsValid() {
+			return nil
+		}
+		out = append(out, argOrigin{cs.Fn, cs.Call, cs.Call.Args[idx]})
+	}
+	return out
+}
+
+// paramIdent returns the identifier declaring the parameter with that name (or, when it was renamed, the one at the
+// position), nil if there is none.
+func paramIdent(f *chk.Fn, name string, idx int) ast.Expr {
+	if f.Type == nil || f.Type.Params == nil {
+		return nil
+	}
+	var byIdx ast.Expr
+	k := 0
+	for _, fld := range f.Type.Params.List {
+		for _, nm := range fld.Names {
+			if nm.Name == name {
+				return nm
+			}
+			if k == idx {
+				byIdx = nm
+			}
+			k++
+		}
+		if len(fld.Names) == 0 {
+			k++
+		}
+	}
+	return byIdx
+}
+
+// recvFieldOrPassed: e is the field `name` of f's receiver, or a parameter of f for which every caller passes that
+// field of its own receiver (of the given type).
+func recvFieldOrPassed(p *chk.Prog, f *chk.Fn, typ, name string) func(ast.Expr) bool {
+	return func(e ast.Expr) bool {
+		if sel, ok := ast.Unparen(f.Resolve(e)).(*ast.SelectorExpr); ok && sel.Sel.Name == name && isRecv(f)(sel.X) {
+			return true
+		}
+		orig := paramOrigins(p, f, e)
+		if len(orig) == 0 {
+			return false
+		}
+		for _, o := range orig {
+			sel, ok := ast.Unparen(o.Fn.Resolve(o.Arg)).(*ast.SelectorExpr)
+			if !ok || sel.Sel.Name != name || !isRecv(o.Fn)(sel.X) {
+				return false
+			}
+			if rv := o.Fn.Recv(); rv == nil || !strings.HasSuffix(strings.TrimPrefix(rv.Type().String(), "*"), "."+typ) {
+				return false
+			}
+		}
+		return true
+	}
+}
+
+// filteredList: e is a local list that holds exactly the elements of a collection (satisfying coll) for which
+// keep(element) holds: it is declared empty in the innermost loop body (or function) that contains the use, its only
+// other assignment is `L = append(L, a)` for the element a of a range loop over the collection, that append is
+// dominated by keep(a), the loop has no break, and an iteration ends without the append only when keep(a) is false.
+func filteredList(f *chk.Fn, g *chk.Graph, e ast.Expr, coll func(ast.Expr) bool, keep func(elem func(ast.Expr) bool, positive bool) chk.Guard) bool {
+	id, ok := ast.Unparen(e).(*ast.Ident)
+	if !ok {
+		return false
+	}
+	l, ok := f.ObjOf(id).(*types.Var)
+	if !ok || l.IsField() || l.Pkg() == nil || l.Parent() == l.Pkg().Scope() {
+		return false
+	}
+	// declared in the same iteration as the use
+	if outer := f.LoopOf(id); outer != nil {
+		if !(outer.Pos() <= l.Pos() && l.Pos() <= outer.End()) {
+			return false
+		}
+	}
+	nApp := 0
+	for _, n := range assignsTo(f, l) {
+		as, isAs := n.(*ast.AssignStmt)
+		if !isAs || len(as.Lhs) != 1 || len(as.Rhs) != 1 {
+			return false
+		}
+		r := ast.Unparen(as.Rhs[0])
+		if cl, isLit := r.(*ast.CompositeLit); f.IsNilLit(r) || (isLit && len(cl.Elts) == 0) {
+			if as.Pos() > id.Pos() {
+				return false
+			}
+			continue
+		}
+		rs, _ := f.LoopOf(as).(*ast.RangeStmt)
+		if rs == nil || !(coll(rs.X) || coll(f.Resolve(rs.X))) {
+			return false
+		}
+		a := rangeVal(f, rs)
+		if !f.IsAssignPat("R", "append(R, A)", chk.H("R", f.IsObj(l)), chk.H("A", a))(as) {
+			return false
+		}
+		sites := g.Find(func(m ast.Node) bool { return m == ast.Node(as) })
+		if len(sites) != 1 || !g.Dominated(sites[0], keep(a, true)) || loopHasBreak(g, rs) ||
+			loopSkipsWithout(g, rs, func(m ast.Node) bool { return m == sites[0].Top }, keep(a, false)) {
+			return false
+		}
+		if !(rs.End() <= id.Pos()) {
+			return false
+		}
+		nApp++
+	}
+	return nApp == 1
+}
+
+// isSetInsert: `S[k] = true` or `S[k] = struct{}{}` - the two spellings of adding k to a set kept in a map.
+func isSetInsert(f *chk.Fn) func(ast.Node) bool {
+	return func(n ast.Node) bool {
+		as, ok := n.(*ast.AssignStmt)
+		if !ok || len(as.Lhs) != 1 || len(as.Rhs) != 1 || as.Tok != token.ASSIGN {
+			return false
+		}
+		ix, ok := ast.Unparen(as.Lhs[0]).(*ast.IndexExpr)
+		if !ok {
+			return false
+		}
+		if tv, ok := f.Info().Types[ix.X]; !ok || tv.Type == nil {
+			return false
+		} else if _, isMap := tv.Type.Underlying().(*types.Map); !isMap {
+			return false
+		}
+		if f.IsConstBool(as.Rhs[0], true) {
+			return true
+		}
+		cl, ok := ast.Unparen(as.Rhs[0]).(*ast.CompositeLit)
+		if !ok || len(cl.Elts) != 0 {
+			return false
+		}
+		if tv, ok := f.Info().Types[cl]; ok && tv.Type != nil {
+			if st, isStruct := tv.Type.Underlying().(*types.Struct); isStruct && st.NumFields() == 0 {
+				return true
+			}
+		}
+		return false
+	}
+}
+
 // memberGuard: "elem is a member of the collection": slices.Contains(coll, elem), or the equality of elem with an
 // element of coll (the value variable of a loop over coll - the form the search functions of the standard library are
 // normalised to - or coll[i]); the guard engine carries that comparison through the found-flag of the loop.
